@@ -7,7 +7,7 @@
    annotation of a wire is right for v + cc.ZeroWire()/cc.OneWire() exist. *)
 From Coq Require Import List Bool Arith.
 From Mpc Require Import Circuit.Circuit Circuit.Passes Circuit.PassesProof Circuit.PassesBFS
-  Circuit.PassesIO Circuit.PassesExamples.
+  Circuit.PassesIO Circuit.PassesInv Circuit.PassesExamples.
 Import ListNotations.
 
 (* For every freshly built graph (gates in dependency order, single
@@ -117,21 +117,44 @@ Theorem C09_ranges :
 Proof. exact (fun G WF R => conj (const_propagate_ranged G WF R) (fun p => io_optimize p G)). Qed.
 Print Assumptions C09_ranges.
 
-(* For all prune flags, all targets, every freshly built graph (wfg, wire ids
-   in range) and every input: the circuit produced by the pipeline of
-   CompileCircuit computes the meaning of the graph, PROVIDED (not derived
-   here; both follow from the fan-out bookkeeping invariant "NumOutputs >=
-   true use count, output-gate lists contain every consumer") that
-   ShortCircuitXORZero fires through exact producer links and that the
-   optimised graph satisfies Compile's precondition [cwf]. *)
+(* The bookkeeping invariant through the rewriting passes, for every freshly
+   built graph (wfg + wfb + wfx = gates in dependency order, exact builder
+   bookkeeping, an acyclicity witness): after ConstPropagate and
+   ShortCircuitXORZero the output-gate lists still cover every consumer slot
+   with multiplicity, NumOutputs >= true use count, stale entries included
+   (BK); the graph is acyclic, single-producer, outputs unconsumed and still
+   computable from the inputs (ST0); and every firing of ShortCircuitXORZero
+   went through an exact producer link. *)
+Theorem C09_rewriting_invariant :
+  forall G, wfg G -> wfb G -> wfx G ->
+    links_exact (const_propagate G) (gorder (const_propagate G)) /\
+    (let G2 := short_circuit_xor_zero (const_propagate G) in
+     BK G2 /\ exists rank, ST0 rank G2).
+Proof. exact (fun G WF FB X => conj (links_exact_derived G WF FB X) (rewriting_invariant G WF FB X)). Qed.
+Print Assumptions C09_rewriting_invariant.
+
+(* ShortCircuitXORZero in the pipeline, every freshly built graph, every
+   input: the meaning of every existing wire is kept.  No further hypothesis. *)
+Theorem C09_short_circuit_pipeline :
+  forall G x, wfg G -> wfb G -> wfx G ->
+    let G1 := const_propagate G in
+    exists v', Inv x v' (short_circuit_xor_zero G1) /\
+               forall w, w < gnw G1 -> v' w = geval G x w.
+Proof. exact short_circuit_sat_wf. Qed.
+Print Assumptions C09_short_circuit_pipeline.
+
+(* For all prune flags, all targets, every freshly built graph and every
+   input: the circuit produced by the pipeline of CompileCircuit computes the
+   meaning of the graph.  The one hypothesis left beyond the well-formedness
+   of the initial graph: the optimised graph satisfies Compile's precondition
+   [cwf] (BK and ST0 above are its substance; what is not yet derived is the
+   step through Prune and the frame facts about ids/flags). *)
 Theorem C09_options :
   forall (do_prune : bool) t G x,
-    wfg G -> ranged G -> (forall o, In o (gouts G) -> o < gnw G) ->
-    length x = length (gins G) ->
-    links_exact (const_propagate G) (gorder (const_propagate G)) ->
+    wfg G -> wfb G -> wfx G -> length x = length (gins G) ->
     cwf (optimize do_prune G) ->
     eval_plain (pipeline do_prune t G) x = graph_eval G x.
-Proof. exact pipeline_correct_final. Qed.
+Proof. exact pipeline_correct_wf. Qed.
 Print Assumptions C09_options.
 
 (* The hypotheses are inhabited: the example graph (constants, fan-out, an
@@ -140,11 +163,11 @@ Print Assumptions C09_options.
    dead gates behind, and all four configurations compute its meaning on all
    inputs. *)
 Theorem C09_hypotheses_inhabited :
-  wfg ex_graph /\ wfb ex_graph /\ cwf ex_graph /\
+  wfg ex_graph /\ wfb ex_graph /\ wfx ex_graph /\ cwf ex_graph /\
   (let st := compile_assign ex_graph in
    emission_ok (cg st) (id_of (cg st)) (cnext st) (casg st) /\ levels_ok (cg st) (casg st)) /\
   (let G3 := optimize true ex_graph in
    existsb (fun g => ndead (gn G3 g)) (seq 0 (gnn G3)) = true /\
    length (gorder G3) < length (gorder ex_graph) /\ gerr G3 = 0).
-Proof. exact (conj ex_wfg (conj ex_wfb (conj ex_cwf (conj ex_emission ex_dead_gates)))). Qed.
+Proof. exact (conj ex_wfg (conj ex_wfb (conj ex_wfx (conj ex_cwf (conj ex_emission ex_dead_gates))))). Qed.
 Print Assumptions C09_hypotheses_inhabited.
